@@ -5,7 +5,7 @@
 
 using namespace QXmpp::Private;
 extern "C" {
-unsigned vp_c05_noff(); unsigned vp_c05_ndis();          // list lengths of the instance (constants on the C side)
+unsigned vp_c05_noff(); unsigned vp_c05_ndis(); unsigned vp_c05_fastbits();          // list lengths of the instance (constants on the C side)
 void *vp_c05_slot(unsigned k); void vp_c05_fill(unsigned k, unsigned row);   // name slots owned by c05_str.c (characters: table_c.inc)
 }
 
@@ -22,6 +22,9 @@ struct Desc { Fam fam; int hash; int cb; };
 #define VP_NOTABLE __attribute__((optnone, noinline))
 
 #include "table.inc"
+#ifndef VP_NFAST
+#define VP_NFAST 1
+#endif
 
 // A name is materialised as a QString over a static block (one slot per use, so that every data pointer is concrete):
 // size and characters are those of the table row selected by the symbolic index; the row is also recorded as ghost id.
@@ -301,6 +304,81 @@ extern "C" void h_default_plain()
     auto [mech, disabledAvailable] = chooseMechanism(config, off);
     if (mech) vp_assert(!std::holds_alternative<SaslPlainMechanism>(*mech), "C05 PLAIN chosen under the default configuration (PLAIN is disabled by default)");
     s.nDis = 1; s.disabled[0] = IDX_PLAIN;
+    checkChoice(s, mech);
+}
+
+// ---- nothing qualifies => mechanism mismatch is reported and nothing is sent (SASL 1 and SASL 2 with / without FAST) ------
+struct CountingSocket : SendDataInterface {
+    int sent = 0;
+    bool sendData(const QByteArray &) override { ++sent; return true; }
+};
+
+extern "C" void h_mismatch_sasl1()
+{
+    keepHelpers();
+    Sym s; makeSym(s);
+    vp_assume(!anyPermitted(s));
+    QXmppConfiguration config;
+    applyConfig(config, s, false);
+    QList<QString> off = makeOffer(s);
+    CountingSocket sock; SaslManager mgr(&sock);
+    auto task = mgr.authenticate(config, off, nullptr);
+    vp_assert(sock.sent == 0, "C05 nothing qualifies but data was sent (SASL)");
+    vp_assert(task.isFinished() && task.hasResult(), "C05 nothing qualifies: authentication must end at once (SASL)");
+    if (task.isFinished() && task.hasResult()) {
+        auto *err = std::get_if<SaslManager::AuthError>(&task.result());
+        vp_assert(err && err->second.type == QXmpp::AuthenticationError::MechanismMismatch, "C05 nothing qualifies: a mechanism mismatch must be reported (SASL)");
+    }
+}
+
+// SASL 2: the last VP_NFAST offered names arrive inside <fast/>; they count only if FAST is in use
+// (XEP-0484: enabled in the configuration and a user agent is set - the token is bound to the user agent's device id)
+extern "C" void h_mismatch_sasl2()
+{
+    keepHelpers();
+    Sym s; makeSym(s);
+    unsigned fb = vp_c05_fastbits();   // constants of the instance: bit0 server offers <fast/>, bit1 FAST enabled in the configuration, bit2 user agent set
+    bool serverFast = fb & 1, useFast = fb & 2, hasAgent = fb & 4;
+    unsigned nOff = s.nOff, nFast = VP_NFAST <= nOff ? VP_NFAST : nOff;
+    bool fastInUse = serverFast && useFast && hasAgent;
+    // the effective offer
+    Sym eff = s; eff.nOff = fastInUse ? nOff : nOff - nFast;
+    vp_assume(!anyPermitted(eff));
+
+    QXmppConfiguration config;
+    applyConfig(config, s, false);
+    config.setUseFastTokenAuthentication(useFast);
+    if (hasAgent) config.setSasl2UserAgent(QXmppSasl2UserAgent(QUuid(1, 2, 3, 4, 5, 6, 7, 8, 9, 10, 11), QStringLiteral("sw"), QStringLiteral("dev")));
+    Sasl2::StreamFeature feature;
+    for (unsigned k = 0; k < VP_NOFF; k++)
+        if (k < nOff - nFast) feature.mechanisms.append(nameOf(k, s.offered[k]));
+    if (serverFast) {
+        FastFeature ff;
+        for (unsigned k = 0; k < VP_NOFF; k++)
+            if (k >= nOff - nFast && k < nOff) ff.mechanisms.push_back(nameOf(k, s.offered[k]));
+        feature.fast = ff;
+    }
+    CountingSocket sock; Sasl2Manager mgr(&sock);
+    auto task = mgr.authenticate(Sasl2::Authenticate(), config, feature, nullptr);
+    vp_assert(sock.sent == 0, "C05 nothing qualifies but data was sent (SASL 2)");
+    vp_assert(task.isFinished() && task.hasResult(), "C05 nothing qualifies: authentication must end at once (SASL 2)");
+    if (task.isFinished() && task.hasResult()) {
+        auto *err = std::get_if<Sasl2Manager::AuthError>(&task.result());
+        vp_assert(err && err->second.type == QXmpp::AuthenticationError::MechanismMismatch, "C05 nothing qualifies: a mechanism mismatch must be reported (SASL 2)");
+    }
+}
+
+// ---- finding ht-alias-name, concrete demonstration through the REAL parser and the REAL choice (no cut) ----------------
+// offered: the garbled name only; disabled: HT-SHA-384-NONE; stored token: HT-SHA-384-NONE
+extern "C" void h_alias_bypass()
+{
+    keepHelpers();
+    Sym s {}; s.nOff = 1; s.offered[0] = IDX_ALIAS; s.nDis = 1; s.disabled[0] = IDX_FIRST_HT + 1; s.hasPreferred = false;
+    s.password = false; s.hasHt = true; s.htHash = 1; s.htCb = CB_NONE;
+    QXmppConfiguration config;
+    applyConfig(config, s, false);
+    QList<QString> off = makeOffer(s);
+    auto [mech, disabledAvailable] = chooseMechanism(config, off);
     checkChoice(s, mech);
 }
 
